@@ -53,6 +53,51 @@ RECT = {
 }
 
 
+def round_params_justified(db):
+    """The allow-list entry for steps_per_rad_/step_sin_/step_cos_ rests on one fact: DoGroupOffset recomputes all three at
+    its top level, guarded by nothing but the Round predicate under which they are later read.  Returns (ok, why)."""
+    from ..astq import walk, canon, if_parts
+    f = db.one("ClipperOffset::DoGroupOffset")
+    site = None
+    for s in kids(f.body):
+        if s.get("kind") == "IfStmt":
+            cond, then, els = if_parts(s)
+            cs = canon(cond)
+            if "Round" in cs and "join_type" in cs and "end_type" in cs and "||" in cs:
+                site = (s, cond, then)
+    if site is None:
+        return False, "the `if (join type or end type is Round)` block is no longer at the top level of DoGroupOffset"
+    s, cond, then = site
+    need = {"steps_per_rad_", "step_sin_", "step_cos_"}
+    got = set()
+    for st in (kids(then) if then.get("kind") == "CompoundStmt" else [then]):
+        # only unconditional top-level assignments of the block count (a nested `if` makes the recomputation conditional)
+        if st.get("kind") == "IfStmt":
+            continue
+        for x in walk(st):
+            if x.get("kind") == "BinaryOperator" and x.get("opcode") == "=":
+                l = canon(kids(x)[0])
+                if l in need:
+                    got.add(l)
+    if got != need:
+        return False, "%s are not all recomputed unconditionally inside the Round block" % sorted(need - got)
+    return True, ""
+
+
+def offset_table(db):
+    """OFFSET with the allowance withdrawn when its justification no longer holds."""
+    ok, why = round_params_justified(db)
+    if ok:
+        return OFFSET, None
+    t = dict(OFFSET)
+    t["allow"] = {}
+    t["loop_allow"] = {}
+    t["dbu"] = dict(OFFSET["dbu"])
+    for k in ("steps_per_rad_", "step_sin_", "step_cos_"):
+        t["dbu"][k] = 1
+    return t, why
+
+
 def _public_methods(db, classes):
     out = []
     for c in classes:
@@ -116,25 +161,28 @@ def run(chk):
                 raise AnalysisBroken("container methods without a model: %s" % sorted(eng.unknown_methods))
         # ---- ClipperOffset ------------------------------------------------------------
         eng = e2.E2(db, chk, cfg, ["ClipperOffset"])
-        e2.check_classification(eng, OFFSET, chk, "ClipperOffset")
+        OFF, why = offset_table(db)
+        if why:
+            chk.notes.append("allowance for steps_per_rad_/step_sin_/step_cos_ withdrawn: " + why)
+        e2.check_classification(eng, OFF, chk, "ClipperOffset")
         execs = db.find("ClipperOffset::Execute")
         if len(execs) != 3:
             raise AnalysisBroken("expected 3 ClipperOffset::Execute overloads, found %d" % len(execs))
         worlds = [{"deltaCallback64_": False}, {"deltaCallback64_": True}]
         chk.allow("E2", "ClipperOffset::deltaCallback64_", "public option; Execute(DeltaCallback64, ...) stores it exactly like "
                   "SetDeltaCallback and it persists by design; analysed by configuration splitting (set / unset)")
-        e2.rule_dbu(eng, chk, cfg, execs, OFFSET, worlds)
+        e2.rule_dbu(eng, chk, cfg, execs, OFF, worlds)
         ei = db.one("ClipperOffset::ExecuteInternal")
         gl = e2.find_loops(ei, lambda l: "groups_" in e2.loop_header_text(l) and any(
             x.get("kind") == "MemberExpr" and x.get("name") == "DoGroupOffset" for x in e2.walk(l)))
         if len(gl) != 1:
             raise AnalysisBroken("group loop of ClipperOffset::ExecuteInternal not found (%d candidates)" % len(gl))
-        e2.rule_loop(eng, chk, cfg, ei, gl[0], OFFSET, worlds, "group loop of ClipperOffset::ExecuteInternal")
+        e2.rule_loop(eng, chk, cfg, ei, gl[0], OFF, worlds, "group loop of ClipperOffset::ExecuteInternal")
         dg = db.one("ClipperOffset::DoGroupOffset")
         pl = e2.find_loops(dg, lambda l: "paths_in" in e2.loop_header_text(l))
         if len(pl) != 1:
             raise AnalysisBroken("path loop of ClipperOffset::DoGroupOffset not found (%d candidates)" % len(pl))
-        e2.rule_loop(eng, chk, cfg, dg, pl[0], OFFSET, worlds, "path loop of ClipperOffset::DoGroupOffset")
+        e2.rule_loop(eng, chk, cfg, dg, pl[0], OFF, worlds, "path loop of ClipperOffset::DoGroupOffset")
         if eng.unknown_methods:
             raise AnalysisBroken("container methods without a model: %s" % sorted(eng.unknown_methods))
         # ---- RectClip64 / RectClipLines64 ------------------------------------------------
